@@ -4,7 +4,8 @@ executed by that property's quick check?
 
   tools/coverage.py build            coverage-instrumented harness binaries (cargo +nightly, target-cov)
   tools/coverage.py run [Cxx ...]    run the quick tier of the given (default: all) properties under instrumentation
-  tools/coverage.py report [Cxx ...] per property: anchored file -> functions with zero executions
+  tools/coverage.py report [--lines] [Cxx ...] per property: anchored file -> functions with zero executions
+                                     (--lines: also the uncovered line ranges inside executed functions)
 
 Everything lives under /tmp/scratch/cov (profiles) and harness/target-cov (binaries); nothing here is needed by a
 registered command.
@@ -127,10 +128,33 @@ def report(pids):
                 else:
                     never.append("%s:%d" % (name, ln))
             print("  %-45s %d functions executed, never: %s" % (a, n_exec, ", ".join(never) if never else "-"))
+            if LINES:
+                # uncovered line ranges inside functions that WERE executed (error paths, branches never taken)
+                for k, (ln, name) in enumerate(fns):
+                    hi = fns[k + 1][0] if k + 1 < len(fns) else len(src) + 1
+                    inst = [(x, da[x]) for x in range(ln, hi) if x in da]
+                    if not inst or not any(c > 0 for _, c in inst):
+                        continue
+                    zero = [x for x, c in inst if c == 0]
+                    if not zero:
+                        continue
+                    rngs, st, pv = [], zero[0], zero[0]
+                    for x in zero[1:]:
+                        if x > pv + 2:
+                            rngs.append((st, pv)); st = x
+                        pv = x
+                    rngs.append((st, pv))
+                    print("      %s:%d  uncovered: %s" % (name, ln, ", ".join("%d-%d" % r if r[0] != r[1] else "%d" % r[0] for r in rngs)))
+                    for a0, b0 in rngs[:6]:
+                        print("          | " + src[a0 - 1].strip()[:110])
 
 
+LINES = False
 if __name__ == "__main__":
     a = sys.argv[1:]
+    if "--lines" in a:
+        LINES = True
+        a.remove("--lines")
     allp = ["C%02d" % i for i in range(1, 21)]
     if not a:
         print(__doc__)
